@@ -374,7 +374,7 @@ def sameCustomerActs (P : Problem) (orig : List Tour) (re : List RTour) : Bool :
   orig.length == re.length &&
   (List.zip orig re).all (fun p =>
     p.1.vehicle == p.2.vehicle && p.1.shift == p.2.shift &&
-    customerActs p.1.acts == customerOnly P p.2.acts)
+    decide (customerActs p.1.acts = customerOnly P p.2.acts))
 
 /-- same set (lists without order) -/
 def sameSet (a b : List String) : Bool := a.all b.contains && b.all a.contains
@@ -434,7 +434,7 @@ def tourOk (P : Problem) (t : Tour) : Bool :=
       (a.kind == "arrival") ||
       (isCustomerKind a.kind &&
         (match placeOf P a with | some (jd, pl) => !jd.bound && servedAt pl a | none => false)) ||
-      (isBoundKind a.kind && fmt a.dep == endOf a &&
+      (isBoundKind a.kind && !isCustomerKind a.kind && a.task == 0 && fmt a.dep == endOf a &&
         (match matchBound (ctxOfAct P rs a) (boundGroup P t.vehicle a.kind t.shift P.jobs.length 1) with
          | some (jd, _) => jd.id == a.job && jd.bound
          | none => false)))
